@@ -559,6 +559,7 @@ type repoGen struct {
 	n           int // ops emitted
 	adds        int
 	maxLive     int
+	backsteps   int // times the clock stepped back
 }
 
 var (
@@ -688,6 +689,16 @@ func (g *repoGen) param(forAdd bool) def.TaskUpdateParam {
 }
 
 func (g *repoGen) tick() string {
+	// the wall clock is not monotone (NTP step, restored VM): now and then it steps back
+	if g.r.Chance(1, 25) {
+		if g.r.Chance(1, 2) {
+			g.now = g.now.Add(-time.Duration(1+g.r.Intn(5)) * time.Millisecond)
+		} else {
+			g.now = g.now.Add(-time.Duration(1+g.r.Intn(90)) * time.Second)
+		}
+		g.backsteps++
+		return proto.Time(g.now)
+	}
 	switch g.r.Intn(4) {
 	case 0: // equal reading
 	case 1:
